@@ -190,6 +190,36 @@ func TestVerif_C11(t *testing.T) { //nolint:cyclop,maintidx
 		}
 	}
 
+	// ---- Encode into a ChannelData value that is being reused (Raw holds stale bytes) ----
+	for _, n := range []int{0x4000, 0x7FFF, 0x5A5A} {
+		for l := 0; l <= 9; l++ {
+			seed := rng.Intn(256)
+			// (a) a longer message was encoded before, then Reset
+			cd := ChannelData{Number: ChannelNumber(n), Data: rng.Bytes(8 + rng.Intn(40))}
+			for i := range cd.Data {
+				cd.Data[i] |= 0x81 // never zero
+			}
+			c11NoPanic(t, "Encode", cd.Encode)
+			cd.Reset()
+			cd.Data = verifsim.Pat(l, seed)
+			c11NoPanic(t, "Encode", cd.Encode)
+			col.Add("cd-encode-reused", "enc-reuse", true, fmt.Sprintf("KEnc %d %d %d %s", n, l, seed, verifsim.Desc(cd.Raw, l, seed)))
+			// (b) a buffer with non-zero trailing bytes was decoded, then the value is re-encoded
+			raw := append([]byte{0x40, 0x01, 0, byte(l)}, verifsim.Pat(l, seed)...)
+			for len(raw)%4 != 0 || len(raw) < 8 {
+				raw = append(raw, 0xAA)
+			}
+			cd2 := ChannelData{Raw: raw}
+			var derr error
+			c11NoPanic(t, "Decode", func() { derr = cd2.Decode() })
+			if derr == nil {
+				cd2.Number = ChannelNumber(n)
+				c11NoPanic(t, "Encode", cd2.Encode)
+				col.Add("cd-encode-after-decode", "enc-reuse", true, fmt.Sprintf("KEnc %d %d %d %s", n, l, seed, verifsim.Desc(cd2.Raw, l, seed)))
+			}
+		}
+	}
+
 	// ---- ChannelData decode / IsChannelData on raw buffers: header value x declared/actual relation ----
 	rawCase := func(buf []byte, tag string) {
 		dec := ChannelData{Raw: append([]byte{}, buf...)}
